@@ -70,7 +70,8 @@ def handle (j : J) : Except String J := do
       | some "found" => pure Lookup.found
       | some "unknownKind" => pure Lookup.unknownKind
       | _ => pure Lookup.notNeeded
-    pure (ofRun (rfRun (← (← j.getArr "pre").mapM toPred) (← (← j.getArr "post").mapM toPred) lk crud))
+    let hasReturn := match j.get? "ret" with | some (.bool b) => b | _ => true
+    pure (ofRun (rfRunR hasReturn (← (← j.getArr "pre").mapM toPred) (← (← j.getArr "post").mapM toPred) lk crud))
   | op => throw s!"bad op {op}"
 
 end Koreo.Driver.C13
